@@ -592,37 +592,55 @@ class C14(PropertyCheck):
         "QipVerif.C14.variants_false",
         "QipVerif.C14.cubic_interpolant",
         "QipVerif.C14.splineDegree_spec",
+        "QipVerif.C14.run_analytically_is_time_ordered",
     ]
-    technique = ("Lean 4 proof (induction over the merged grid with the slot invariant, exact rationals) + model/implementation "
-                 "correspondence; the solver part is numerical agreement (partial)")
+    technique = ("Lean 4 proof (induction over the merged grid with the slot invariant, exact rationals; Mathlib's matrix exponential, "
+                 "its derivative and Gronwall's inequality for the time-ordered product) + model/implementation correspondence; the "
+                 "numerical solvers and Qobj.expm are numerical agreement (partial)")
     level_text = ("Lean 4 theorems over exact rationals, for every tolerance tol >= 0, any number of channels and any grids: the merged "
                   "grid of get_full_tlist is strictly increasing with gaps > tol and consists of channel points (unconditionally); for "
                   "channels with strictly increasing grids starting at 0 whose distinct points are more than tol apart it contains every "
                   "channel point, and the coefficient that _fill_coeff / get_full_coeffs return at every merged point T_k is the channel's "
-                  "step function at T_k (slot value, 0 from the channel's last point on) whenever the channel has one coefficient per slot "
-                  "or a full-length array ending in 0 (fill_eq_step, induction with the invariant 'old_ind is the slot containing T_k'); the "
-                  "step functions are constant on every merged slot (piecewise_constant), so the slice list of run_analytically is H(t) "
-                  "on each slot; a reloaded channel resamples to itself and labels / array shapes survive save_coeff/read_coeff under the "
-                  "stated conditions.  The full statement is refuted for full-length coefficients with a non-zero last entry "
-                  "(leak_counterexample) and for a single pulse saved without time column (save_read_shape_counterexample).  "
-                  "PARTIAL: the agreement of expm products, run_state (sesolve/mesolve) and the text round trip with the time-ordered "
-                  "exponential is numerical; it is checked on every run by the correspondence (1-3 subsystems of dimension 2-3, 1-4 "
+                  "step function at T_k (slot value, 0 from the channel's last point on) for EVERY coefficient array of length n-1 or n "
+                  "(fill_eq_step_repaired / fullCoeffs_eq_repaired: the source as it is in /repo, where the last element of a full-length "
+                  "coefficient has no effect - fix C14-2, applied; variant flag read from the tree; fill_eq_step with the hypothesis "
+                  "LastZero and leak_counterexample describe the padding before the fix); the step functions are constant on every merged "
+                  "slot (piecewise_constant).  run_analytically_is_time_ordered (PROVED, formerly a trusted analytic fact): for every "
+                  "matrix size, arbitrary drift and control matrices and the slices (dt_k, column k) of the model, the ordered product "
+                  "of the slice exponentials exp(-i dt_k (drift + sum_m c_m(T_k) H_m)) - Mathlib's matrix exponential - is U(T_end) for "
+                  "the function U with U(0) = 1, U continuous, dU/dt = -i H(t) U(t) (right derivative at every real t, two-sided "
+                  "derivative off the merged grid) where H(t) = drift + sum_m c_m(t) H_m is the STATED Hamiltonian at the real time t "
+                  "(step coefficient holds its value from one grid point to the next, zero once its grid has ended), and U is the "
+                  "only continuous function with that right derivative and U(0) = 1 (Gronwall): the slice product is the time-ordered "
+                  "exponential.  A reloaded channel resamples to itself; labels survive save_coeff/read_coeff when no label contains "
+                  "';' or a newline; array shapes survive for every number of pulses and columns (save_read_shape_repaired: "
+                  "np.loadtxt(ndmin=2), fix C14-3, applied; save_read_shape_counterexample describes the call before the fix).  "
+                  "PARTIAL: that Qobj.expm computes the matrix exponential, run_state (sesolve/mesolve) and the text round trip "
+                  "('%1.16f') are numerical; they are checked on every run by the correspondence (1-3 subsystems of dimension 2-3, 1-4 "
                   "channels, independent non-uniform grids ending at different times, ket and density matrix) against an independent "
                   "ordered product of scipy.linalg.expm over the model's merged grid, not proved.  Cubic-spline coefficients (partial, "
                   "numerical): processors with spline_kind='cubic', channels with 2-7 samples on independent grids ending at the same / "
-                  "different times: get_full_coeffs against an independent make_interp_spline evaluation, run_analytically, the operator "
+                  "different times: get_full_coeffs against an independent make_interp_spline evaluation (outside the channel's own grid "
+                  "the boundary sample is kept, as the QuTiP solver does - fix C14-4, applied), run_analytically, the operator "
                   "the solver integrates, run_state against an independent DOP853 integration and save/reload; the model only states the "
-                  "degree min(3, n-1) of the interpolant per sample count (Grid.splineDegree, compared behaviourally).")
-    level_note = ("partial: proof for the resampling / merged-grid / label logic; the solver clause (Qobj.expm, sesolve/mesolve, "
-                  "np.savetxt '%1.16f' precision, cubic splines) is trusted runtime numerics compared to 1e-9 (analytic) / 2e-6 (solver) "
-                  "on sampled processors.  The analytic fact 'time-ordered exponential of a piecewise-constant H = ordered product of "
-                  "slice exponentials' is assumed.  Trusted: Lean kernel (propext, Classical.choice, Quot.sound), the harness py/props/c14.py.")
+                  "degree min(3, n-1) of the interpolant per sample count (cubic_interpolant over the regenerated Gen.cubicInterp, "
+                  "compared behaviourally).")
+    level_note = ("partial: proof for the resampling / merged-grid / label logic and for 'ordered product of slice exponentials = "
+                  "time-ordered exponential of the stated piecewise-constant Hamiltonian' (existence, ODE, uniqueness; Mathlib "
+                  "NormedSpace.exp); the numerical clause (Qobj.expm, sesolve/mesolve, np.savetxt '%1.16f' precision, cubic splines) is "
+                  "trusted runtime numerics compared to 1e-9 (analytic) / 2e-6 (solver) on sampled processors.  The fixes C14-1..C14-4 "
+                  "are applied in /repo (run_state options, last element of a full-length step coefficient, ndmin=2, cubic boundary); "
+                  "the check reads the variant of the tree with ast and is green on both shapes.  Uniqueness is proved in the class of "
+                  "continuous functions with a right derivative at every point of [0, T_end) (the class the solution itself belongs to).  "
+                  "Trusted: Lean kernel (propext, Classical.choice, Quot.sound), the harness py/props/c14.py.")
     trusted_base = [
         "Lean 4.33 kernel; axioms propext, Classical.choice, Quot.sound",
         "np.unique/np.sort/np.hstack/np.diff as modelled by Grid.sortU/keepFrom (validated by the correspondence)",
         "float comparisons against tol=1e-10 agree with the rational 1/10^10 away from the threshold (cases within a factor 1+-2^-20 are skipped)",
-        "Qobj.expm, scipy.linalg.expm, qutip.sesolve/mesolve, np.savetxt/np.loadtxt (runtime numerics, compared not proved)",
-        "time-ordered exponential of a piecewise-constant Hamiltonian = ordered product of slice exponentials",
+        "Qobj.expm / scipy.linalg.expm compute the matrix exponential (Mathlib's NormedSpace.exp in the theorem); qutip.sesolve/mesolve, "
+        "np.savetxt/np.loadtxt, scipy CubicSpline (runtime numerics, compared not proved)",
+        "that run_analytically forms H_k = H_drift + sum_m coeffs[m,k]*H_m and one exponential per slice (read from the source; "
+        "compared numerically against an independent product over the model's slices on every run)",
         "py/props/c14.py (harness, independent step-function / expm reference)",
     ]
     assumptions = ["no noise configured; spline_kind = step_func for the proved part",
